@@ -1056,3 +1056,126 @@ func HarnessC08MoreShapes() {
 func c08CallMethodOn(px *Proxy, name string, args ...Object) (res Object, found, panicked bool) {
 	return c08CallMethod(px, name, args...)
 }
+
+// ---- edge cases around struct fields and arguments ----
+
+type c08Edge struct {
+	Err    error
+	Inner  c08Inner
+	PInner *c08Inner
+	Ptrs   []*c08Inner
+	Elems  []c08Inner
+
+	gotInner *c08Inner
+	gotInts  []int
+	calls    int
+}
+
+func (e *c08Edge) TakeInner(in *c08Inner) { e.calls++; e.gotInner = in }
+func (e *c08Edge) TakeInts(xs []int)      { e.calls++; e.gotInts = xs }
+
+type c08Other struct{ Z int }
+
+func HarnessC08StructEdgeCases() {
+	n := verifrt.Int()
+	st := &c08Edge{Inner: c08Inner{N: n, S: "i"}, Ptrs: []*c08Inner{{N: n}, nil}, Elems: []c08Inner{{N: n}}}
+	var px *Proxy
+	p0 := c08Catch(func() {
+		conv, err := NewTypeConverter(reflect.TypeOf(st))
+		if err == nil {
+			obj, _ := conv.From(st)
+			px, _ = obj.(*Proxy)
+		}
+	})
+	verifrt.Assert(!p0 && px != nil, "struct-pointer-becomes-a-proxy")
+	if p0 || px == nil {
+		return
+	}
+	switch verifrt.Choose(9) {
+	case 0: // a nil error field reads as nil
+		var v Object
+		p := c08Catch(func() { v, _ = px.GetAttr("Err") })
+		verifrt.Assert(!p, "reading-a-nil-error-field-never-panics")
+		if !p {
+			_, isErr := v.(*Error)
+			verifrt.Assert(v == Nil || isErr, "nil-error-field-reads-as-nil-or-an-error-value")
+		}
+	case 1: // a map written to a struct-valued field
+		x := verifrt.Int64()
+		var err error
+		p := c08Catch(func() { err = px.SetAttr("Inner", NewMap(map[string]Object{"N": NewInt(x), "S": NewString("w")})) })
+		verifrt.Assert(!p, "writing-a-map-to-a-struct-field-never-panics")
+		if !p && err == nil {
+			verifrt.Reach("map-to-struct-field")
+			verifrt.Assert(int64(st.Inner.N) == x && st.Inner.S == "w", "go-sees-the-struct-built-from-the-map")
+		}
+	case 2: // a map argument with a nil entry
+		var res Object
+		var found, p bool
+		res, found, p = c08CallMethod(px, "TakeInner", NewMap(map[string]Object{"S": Nil, "N": NewInt(3)}))
+		verifrt.Assert(found && !p, "map-argument-with-a-nil-entry-never-panics")
+		_ = res
+	case 3: // a proxy of another struct type as argument is rejected
+		other, _ := NewProxy(&c08Other{Z: 1})
+		res, found, p := c08CallMethod(px, "TakeInner", other)
+		verifrt.Assert(found && !p, "proxy-of-another-type-as-argument-never-panics")
+		if found && !p {
+			_, isErr := res.(*Error)
+			verifrt.Assert(isErr && st.calls == 0, "proxy-of-another-type-as-argument-is-rejected")
+		}
+	case 4: // nil among the values handed over as globals
+		var err error
+		p := c08Catch(func() { _, err = AsObjects(map[string]any{"x": nil, "y": 1}) })
+		verifrt.Assert(!p, "nil-global-never-panics")
+		_ = err
+	case 5: // a map with non-string keys handed over as a global is rejected
+		var err error
+		p := c08Catch(func() { _, err = AsObjects(map[string]any{"m": map[int]string{1: "a"}}) })
+		verifrt.Assert(!p && err != nil, "global-map-with-int-keys-is-rejected-with-an-error")
+	case 6: // a float that is not an integer is not a valid int argument
+		res, found, p := c08CallMethod(px, "TakeInts", NewList([]Object{NewFloat(1.5)}))
+		verifrt.Assert(found && !p, "method-call-never-panics")
+		if found && !p {
+			if _, isErr := res.(*Error); !isErr {
+				verifrt.Assert(len(st.gotInts) == 1 && float64(st.gotInts[0]) == 1.5, "non-integral-float-is-not-passed-as-a-different-int")
+			}
+		}
+	case 7: // a nil element of a slice of struct pointers
+		var v Object
+		p := c08Catch(func() { v, _ = px.GetAttr("Ptrs") })
+		verifrt.Assert(!p, "field-read-never-panics")
+		if l, isL := v.(*List); !p && isL && len(l.items) == 2 {
+			verifrt.Reach("ptr-slice")
+			if np, isP := l.items[1].(*Proxy); isP {
+				var f Object
+				p2 := c08Catch(func() { f, _ = np.GetAttr("N") })
+				verifrt.Assert(!p2, "using-the-element-that-was-nil-never-panics")
+				_ = f
+			}
+		}
+	case 8: // a field of a struct element written through the list
+		var v Object
+		p := c08Catch(func() { v, _ = px.GetAttr("Elems") })
+		verifrt.Assert(!p, "field-read-never-panics")
+		if l, isL := v.(*List); !p && isL && len(l.items) == 1 {
+			if ep, isP := l.items[0].(*Proxy); isP {
+				x := verifrt.Int64()
+				var err error
+				p2 := c08Catch(func() { err = ep.SetAttr("N", NewInt(x)) })
+				verifrt.Assert(!p2, "field-write-never-panics")
+				if !p2 && err == nil {
+					verifrt.Reach("elem-write")
+					var again Object
+					c08Catch(func() { again, _ = px.GetAttr("Elems") })
+					if l2, ok2 := again.(*List); ok2 && len(l2.items) == 1 {
+						if ep2, ok3 := l2.items[0].(*Proxy); ok3 {
+							nv, _ := ep2.GetAttr("N")
+							got, okN := c08IntContent(nv)
+							verifrt.Assert(okN && got == x, "field-of-a-struct-element-written-through-the-list-reads-back")
+						}
+					}
+				}
+			}
+		}
+	}
+}
